@@ -7,6 +7,7 @@
 (*   {"ev": "CreateBad", "c": class, ...}  {"ev": "Clear", "k": kind, ...}  {"ev": "ClearAll", ...}*)
 (*   {"ev": "SwitchHouse", "h": house, ...}  {"ev": "SwitchFramer", "o": owner, "f": framer, ...}  *)
 (*   {"ev": "Clone", "h": house, "f": framer, "n": name, ...}                                     *)
+(*   {"ev": "Prune", "o": owner, "f": framer, ...}  (followed by a Read)                           *)
 (*   {"ev": "Read", "names": [[kind, owner, [names]], ...], "cur": cur}  every namespace as read   *)
 (* "cur" is the namespace owner found current for each kind after the step.                       *)
 EXTENDS Registry, TraceBatch
@@ -43,6 +44,7 @@ TraceNext ==
     \/ Consume("SwitchHouse") /\ SwitchHouse(Ev.h) /\ Logged
     \/ Consume("SwitchFramer") /\ SwitchFramer(Ev.o, Ev.f) /\ Logged
     \/ Consume("Clone") /\ Clone(Ev.h, Ev.f, Ev.n) /\ Logged
+    \/ Consume("Prune") /\ Prune(Ev.o, Ev.f) /\ Logged
     \/ Consume("Read") /\ Read
 
 TraceSpec == TraceInit /\ [][TraceNext]_tvars
